@@ -3820,3 +3820,153 @@ def sp3(m, run):
                 raise AnalysisError('%s: interpreter met an unsupported construct: %s' % (fi.key, ex))
     run.ob('SP3.split-exact', '%s :: %d (curve, parameter, rational) cases' % (fi.key, n), not bad, 'pieces are the two halves of the fully refined net; input untouched; domain ends rejected' if not bad else
            'degree %d, knots %s, u = %s, rational %s: %s   [%d of %d cases]' % (bad[0][0] + (bad[0][1], len(bad), n)), 'geomdl/operations.py:%d in %s' % (fi.node.lineno, fi.key))
+
+
+def rec_surface(made, degs, kvs, grid, rational, opts=None, origin='input'):
+    """recorder surface: exact knots, symbolic control points kept as a [u][v] grid; set_ctrlpts(flat, size_u, size_v) and the ctrlpts2d
+    assignment keep the flat list, the sizes and the 2-D view in step (layout v + size_v * u)"""
+    from .skel import Sym
+    b = Bag('rec:Surface')
+    a = b._a
+    a['__isa__'] = (('BSpline', 'Surface'),)
+    a['_origin'], a['_opts'] = origin, dict(opts or {})
+    a['rational'], a['pdimension'], a['dimension'] = rational, 2, 2
+    if degs is not None:
+        a['degree_u'], a['degree_v'] = degs
+        a['degree'] = list(degs)
+    if kvs is not None:
+        a['knotvector_u'], a['knotvector_v'] = list(kvs[0]), list(kvs[1])
+
+    def install(flat, su, sv):
+        a['_grid'] = [[flat[v + sv * u] for v in range(sv)] for u in range(su)]
+        a['ctrlpts2d'] = [list(r) for r in a['_grid']]
+        if rational:
+            a['ctrlptsw'] = list(flat)
+            a['ctrlpts'] = [[Sym('unweighted_%d_%d' % (i, c)) for c in range(2)] for i in range(len(flat))]
+        else:
+            a['ctrlpts'] = list(flat)
+        a['ctrlpts_size_u'], a['ctrlpts_size_v'] = su, sv
+        a['cpsize'] = [su, sv]
+        a['ctrlpts_size'] = su * sv
+    if grid is not None:
+        install([p_ for row in grid for p_ in row], len(grid), len(grid[0]))
+
+    def set_ctrlpts(sk, node, flat, *sz, **k):
+        if len(sz) < 2:
+            raise Violation('SP3', 'set_ctrlpts is called without the two sizes', node)
+        if len(flat) != sz[0] * sz[1]:
+            raise Violation('SP3', 'set_ctrlpts receives %d points for a %d x %d net' % (len(flat), sz[0], sz[1]), node)
+        install(list(flat), sz[0], sz[1])
+    a['set_ctrlpts'] = Py(set_ctrlpts, 'set_ctrlpts')
+    a['__deepcopy__'] = lambda x: rec_surface(made, (x._a['degree_u'], x._a['degree_v']), (x._a['knotvector_u'], x._a['knotvector_v']), x._a.get('_grid'), rational, x._a['_opts'], 'deepcopy')
+    a['__class__'] = Py(lambda sk, node, *r, **k: rec_surface(made, None, None, None, rational, dict(k), 'constructed'), '__class__')
+    made.append(b)
+    return b
+
+
+def sp3s(m, run):
+    """SP3 for surfaces: split_surface_u / split_surface_v on recorder surfaces (non-square net, different degrees, exact rational knots,
+    symbolic homogeneous points when rational): the two pieces are the two halves, along the split direction only, of the net refined to
+    full multiplicity there; degrees, the other direction's knot vector and every row / column of the other direction are carried over"""
+    from fractions import Fraction as F
+    from .skel import Sym
+    from .poly import Poly
+
+    def boehm(P, kv, p, u):
+        k = max(i for i in range(len(kv) - 1) if kv[i] <= u < kv[i + 1])
+        s = sum(1 for x in kv if x == u)
+        Q = []
+        for i in range(len(P) + 1):
+            if i <= k - p:
+                Q.append(list(P[i]))
+            elif i >= k - s + 1:
+                Q.append(list(P[i - 1]))
+            else:
+                al = (u - kv[i]) / (kv[i + p] - kv[i])
+                Q.append([P[i][c] * al + P[i - 1][c] * (1 - al) for c in range(len(P[0]))])
+        return Q, sorted(kv + [u])
+    degs = (2, 1)
+    kvs = ([F(0)] * 3 + [F(1, 3), F(2, 3), F(2, 3)] + [F(2)] * 3, [F(0), F(0), F(1, 4), F(1, 2), F(1), F(1)])
+    su, sv = len(kvs[0]) - degs[0] - 1, len(kvs[1]) - degs[1] - 1
+    for d, fname in ((0, 'split_surface_u'), (1, 'split_surface_v')):
+        fi = m.func('operations.' + fname)
+        bad, n = [], 0
+        p, kv = degs[d], kvs[d]
+        spans = sorted(set(kv[p:-p]))
+        params = [(a_ + b_) / 2 for a_, b_ in zip(spans, spans[1:])] + sorted(set(kv[p + 1:-(p + 1)]))
+        for rational in (False, True):
+            hd = 3 if rational else 2
+            G = [[[Poly.atom('P%d_%d_%d' % (i, j, c)) for c in range(hd)] for j in range(sv)] for i in range(su)]
+            for u in params:
+                s_ = sum(1 for x in kv if x == u)
+                if s_ > p:
+                    continue
+                n += 1
+                made = []
+                obj = rec_surface(made, degs, kvs, [[[Sym(x) for x in pt] for pt in row] for row in G], rational)
+                obj._a['domain'] = [(kvs[0][degs[0]], kvs[0][-(degs[0] + 1)]), (kvs[1][degs[1]], kvs[1][-(degs[1] + 1)])]
+                sk = SK(m, {('linalg', 'point_distance'): STD_ABSTRACTED[('linalg', 'point_distance')]})
+                sk.exact = True
+                why = None
+                try:
+                    out = sk.call(fi, [obj, u], {})
+                    # refine every line along direction d
+                    lines = [[G[i][j] for i in range(su)] for j in range(sv)] if d == 0 else [[G[i][j] for j in range(sv)] for i in range(su)]
+                    refined = []
+                    for L in lines:
+                        Q, kvq = [list(x) for x in L], list(kv)
+                        for _ in range(p - s_):
+                            Q, kvq = boehm(Q, kvq, p, u)
+                        refined.append(Q)
+                    lkv = [x for x in kvq if x < u] + [u] * (p + 1)
+                    rkv = [u] * (p + 1) + [x for x in kvq if x > u]
+                    nl = len(lkv) - p - 1
+                    if not isinstance(out, (list, tuple)) or len(out) != 2:
+                        why = 'does not return two pieces'
+                    elif obj._a['_grid'] != [[[Sym(x) for x in pt] for pt in row] for row in G] and any(o is obj for o in out):
+                        why = 'the input surface is returned as a piece'
+                    else:
+                        for name, piece, wkv, sl in zip(('first', 'second'), out, (lkv, rkv), (slice(0, nl), slice(nl - 1, None))):
+                            a = piece._a
+                            g = a.get('ctrlpts2d') if a.get('_grid') is None else a.get('ctrlpts2d')
+                            other = 1 - d
+                            if (a.get('degree_u'), a.get('degree_v')) != degs:
+                                why = 'the %s piece has degrees (%r, %r)' % (name, a.get('degree_u'), a.get('degree_v'))
+                            elif [F(x) for x in (a.get('knotvector_' + 'uv'[d]) or [])] != wkv:
+                                why = 'the %s piece has the %s knot vector %s, expected %s' % (name, 'uv'[d], [str(x) for x in (a.get('knotvector_' + 'uv'[d]) or [])], [str(x) for x in wkv])
+                            elif [F(x) for x in (a.get('knotvector_' + 'uv'[other]) or [])] != list(kvs[other]):
+                                why = 'the %s piece does not carry the %s knot vector of the input over' % (name, 'uv'[other])
+                            elif not isinstance(g, list):
+                                why = 'the %s piece gets no 2-D control net' % name
+                            else:
+                                # want[u][v]
+                                if d == 0:
+                                    want = [[refined[j][i] for j in range(sv)] for i in range(len(refined[0]))][sl]
+                                else:
+                                    want = [refined[i][sl] for i in range(su)]
+                                if len(g) != len(want) or any(len(r1) != len(r2) for r1, r2 in zip(g, want)):
+                                    why = 'the %s piece has a %d x %s net, expected %d x %d' % (name, len(g), len(g[0]) if g and isinstance(g[0], list) else '?', len(want), len(want[0]))
+                                else:
+                                    for i, (r1, r2) in enumerate(zip(g, want)):
+                                        for j, (gp, wp) in enumerate(zip(r1, r2)):
+                                            for c in range(hd):
+                                                sv_ = _as_sym(gp[c]) if len(gp) > c else None
+                                                if sv_ is None or not sv_.same(Sym(wp[c])):
+                                                    why = 'point [%d][%d] of the %s piece is %s; the refined net has %r there%s' % (
+                                                        i, j, name, repr(gp)[:100], wp[c], ' (a rational surface is split in homogeneous coordinates)' if rational else '')
+                                                    break
+                                            if why:
+                                                break
+                                        if why:
+                                            break
+                            if why:
+                                break
+                except Violation as v:
+                    why = '%s %s' % (v.msg, v.where())
+                except Unsupported as ex:
+                    raise AnalysisError('%s: interpreter met an unsupported construct: %s' % (fi.key, ex))
+                if why:
+                    bad.append(((str(u), rational), why))
+        run.ob('SP3.split-exact', '%s :: %d (parameter, rational) cases on a %d x %d net of degrees %s' % (fi.key, n, su, sv, degs), not bad,
+               'pieces are the two halves, along the split direction, of the fully refined net' if not bad else
+               'parameter %s, rational %s: %s   [%d of %d cases]' % (bad[0][0] + (bad[0][1], len(bad), n)), 'geomdl/operations.py:%d in %s' % (fi.node.lineno, fi.key))
